@@ -82,10 +82,7 @@ theorem insertByUser_sorted (r : Record) (l : List Record)
       rw [List.pairwise_cons]
       refine ⟨?_, List.pairwise_cons.mpr hl⟩
       intro y hy
-      have hrx : r.userHash ≤ x.userHash := by
-        rcases String.le_total r.userHash x.userHash with h | h
-        · exact h
-        · exact absurd hlt (String.not_lt.mpr h)
+      have hrx : r.userHash ≤ x.userHash := hlt
       rcases List.mem_cons.mp hy with rfl | hy
       · exact hrx
       · exact String.le_trans hrx (hl.1 y hy)
@@ -95,7 +92,9 @@ theorem insertByUser_sorted (r : Record) (l : List Record)
       intro y hy
       have hy' := (insertByUser_perm r rest).mem_iff.mp hy
       rcases List.mem_cons.mp hy' with rfl | hy'
-      · exact String.not_lt.mp hnlt
+      · rcases String.le_total y.userHash x.userHash with h | h
+        · exact absurd h hnlt
+        · exact h
       · exact hl.1 y hy'
 
 theorem sortByUser_sorted' (l : List Record) :
